@@ -443,7 +443,14 @@ class PathRun:
         if isinstance(sh, S.DecS): return Val.is_VDec(t)
         if isinstance(sh, S.DateS): return z3.And(Val.is_VDate(t), Val.ord(t) >= 1, Val.ord(t) <= MAXORD)
         if isinstance(sh, S.NoneS): return Val.is_VNone(t)
-        if isinstance(sh, (S.Opaque, S.Child, S.Rec, S.Callee)): return Val.is_VObj(t)
+        if isinstance(sh, S.Rec):
+            cs = [Val.is_VObj(t)]
+            for an, ash in sh.attrs.items():
+                c = self.val_constraint(field_fn(an)(t), ash)
+                if c is not None:
+                    cs.append(c)
+            return z3.And(*cs)
+        if isinstance(sh, (S.Opaque, S.Child, S.Callee)): return Val.is_VObj(t)
         if isinstance(sh, S.Dyn): return self.kind_constraint(t, sh)
         if isinstance(sh, S.Opt):
             c = self.val_constraint(t, sh.shape)
